@@ -14,6 +14,8 @@ PY = {
         "TreeSequence.trees", "TreeSequence.first", "TreeSequence.last", "TreeSequence.at", "TreeSequence.at_index",
         "TreeSequence.aslist", "TreeSequence.coiterate", "TreeSequence.edge_diffs", "TreeSequence.breakpoints",
         "TreeSequence.__iter__"})),
+    "C02": lambda mod, q: (mod == "trees" and (q.startswith("parse_") or q in {"load_text", "load", "TreeSequence.load_tables"}))
+    or (mod == "tables" and q in {"TableCollection.tree_sequence", "TableCollection.fromdict"}),
     "C03": lambda mod, q: (mod == "genotypes") or (mod == "trees" and q in {
         "TreeSequence.variants", "TreeSequence.genotype_matrix", "TreeSequence.haplotypes", "TreeSequence.alignments",
         "TreeSequence._haplotypes_array"}),
@@ -28,6 +30,10 @@ PY = {
                                                     "TableCollection.compute_mutation_parents", "TableCollection.compute_mutation_times",
                                                     "TableCollection.has_index"},
     "C08": lambda mod, q: mod == "stats" or (mod == "trees" and q.startswith("TreeSequence.")),   # refined by STAT_PARAMS below
+    # every public method that takes an id / index / position from the caller
+    "C09": lambda mod, q: (mod == "trees" and (q.startswith("Tree.") or q.startswith("TreeSequence."))) or (mod == "tables") or (mod == "genotypes"),
+    "C10": lambda mod, q: (mod in ("trees", "tables") and q in {"load", "TreeSequence.load", "TableCollection.load", "TreeSequence.load_tables"})
+    or (mod == "util" and q in {"raise_known_file_format_errors", "convert_file_like_to_open_file"}),
     "C11": lambda mod, q: mod in ("tables", "trees") and q.split(".")[-1] in {
         "keep_intervals", "delete_intervals", "delete_sites", "ltrim", "rtrim", "trim", "split_edges", "decapitate", "delete_older",
         "extend_haplotypes", "_check_trim_conditions"},
